@@ -19,7 +19,7 @@ Failure of any step is a broken tie: res.violation("translated source no longer 
 added to res.corr_obligations and the counts go to res.cov["translation_tie"].
 
 `functions`: None = every group of Equiv.v; otherwise an iterable of group names ("can",
-"descriptor", "wire", "physical", "apidecide", "netlink", "scan", "dbcid", "dbcvalidate", "lookup") and/or translated function names
+"descriptor", "wire", "physical", "apidecide", "netlink", "scan", "dbcid", "dbcvalidate", "lookup", "lintnames") and/or translated function names
 ("Data_Bit", "Signal_MaxUnsigned", ...):
 the groups containing them, plus the groups those require, are checked (a group is the unit because
 the generated records contain exactly the struct fields the translated functions use).
@@ -61,7 +61,9 @@ TIE_NOTE_WIRE = (" Translated here: Frame.Validate and all of pkg/socketcan/fram
 TIE_NOTE_LOOP = (" Loops of the form `for i, x := range l` / `for i := 0; i < len(l); i++` whose body assigns locals, continues or "
                  "returns are translated to the fold go_range of Translate/GoSem.v (state = the assigned locals, early exit = "
                  "LoopReturn); a []*S is read as the list of the element values (elements assumed non-nil, pointer identity not "
-                 "represented), a returned *S as option S.")
+                 "represented), a returned *S as option S; `range` over a string decodes UTF-8 by GoSem.v's go_utf8_decode (RFC 3629 "
+                 "table, invalid byte = U+FFFD of width 1); unicode.IsDigit/IsUpper are uninterpreted (parameters of the translated "
+                 "function: the lemma holds for every interpretation).")
 
 
 def describe(properties, pid, functions, *notes):
